@@ -18,11 +18,15 @@
 #   M10 is_empty() ignores is_dirty_                                                 false_negative
 #   M11 reset() keeps the cached count                                               transcript (get_bits_used / is_empty)
 #   M12 bit_array_ops::intersect uses |=                                             intersect_not_and
-#   (M1, M2, M3 and M7 pass bloom_filter_test.)
+#   M13 capacity computed as num_longs << 6 on uint32_t again (= patch E reverted)  restored_capacity_differs
+#   M14 union_with without the read-only check (= part of patch D reverted)        readonly_setop_not_refused, transcript
+#   (M1, M2, M3, M7, M13, M14 pass bloom_filter_test.)
 # Harmless rewrites confirmed NOT reported (exit 0):
 #   H1  internal_query tests the index bits in reverse order (i = num_hashes_ .. 1)
 #   H2  internal_query_and_update counts the newly set bits in a local and calls update_num_bits_set once after the loop
 #   H3  reset() zeroes the bit array before update_num_bits_set(0) (order of independent statements)
+#   H4  the private constructor no longer recounts eagerly for a read-only wrap of a dirty image (get_bits_used recounts lazily)
+#   H5  union_with counts with bit_array_ops::count_num_bits_set after the OR instead of inside the loop
 import struct
 import vlib
 
